@@ -219,7 +219,7 @@ func randomOp(r *rand.Rand, hi int) storex.Op {
 
 // record runs n histories: several epochs per daemon instance (fresh socket + database); every
 // epoch is one History whose base event is the state read sequentially before the clients start.
-func record(c *lib.Ctx, scratch, tag string, seed int64, n int, separate bool) ([]History, error) {
+func record(c *lib.Ctx, scratch, tag string, seed int64, n int, separate, burst bool) ([]History, error) {
 	rng := rand.New(rand.NewSource(seed))
 	var out []History
 	inst := 0
@@ -236,7 +236,11 @@ func record(c *lib.Ctx, scratch, tag string, seed int64, n int, separate bool) (
 		keeper := d.keeper // keeps the daemon alive between epochs; reads base/final state
 		epochs := 1 + rng.Intn(5)
 		for e := 0; e < epochs && len(out) < n; e++ {
-			h, err := recordEpoch(c, rng, d.sock, keeper, tag)
+			rec := recordEpoch
+			if burst {
+				rec = recordBurst
+			}
+			h, err := rec(c, rng, d.sock, keeper, tag)
 			if err != nil {
 				keeper.Close()
 				d.stop()
